@@ -1029,6 +1029,9 @@ func (i *interpreter) callBuiltin(caller *frame, callpos token.Pos, fn *ssa.Buil
 		if len(args) == 1 {
 			return args[0]
 		}
+		if ss, ok := args[1].(symStr); ok {
+			return i.appendSlice(fn, args[0].([]value), ss.bs)
+		}
 		if s, ok := args[1].(string); ok {
 			// append([]byte, ...string) []byte
 			arg0 := args[0].([]value)
@@ -1043,6 +1046,9 @@ func (i *interpreter) callBuiltin(caller *frame, callpos token.Pos, fn *ssa.Buil
 
 	case "copy": // copy([]T, []T) int or copy([]byte, string) int
 		src := args[1]
+		if ss, ok := src.(symStr); ok {
+			src = ss.bs
+		}
 		if _, ok := src.(string); ok {
 			params := fn.Type().(*types.Signature).Params()
 			src = i.conv(params.At(0).Type(), params.At(1).Type(), src)
@@ -1246,8 +1252,25 @@ func (i *interpreter) conv(t_dst, t_src types.Type, x value) value {
 		panic(unsupported{"conversion of opaque string to " + t_dst.String()})
 	case []value:
 		if b, ok := t_dst.Underlying().(*types.Basic); ok && b.Kind() == types.String && containsSym(x) {
-			return opaqueStr{"string([]byte) with symbolic bytes"}
+			if sl, ok := t_src.Underlying().(*types.Slice); ok {
+				if eb, ok := sl.Elem().Underlying().(*types.Basic); ok && eb.Kind() == types.Uint8 {
+					return symStr{append([]value(nil), x...)}
+				}
+			}
+			return opaqueStr{"string([]rune) with symbolic elements"}
 		}
+	case symStr:
+		switch d := t_dst.Underlying().(type) {
+		case *types.Basic:
+			if d.Kind() == types.String {
+				return x
+			}
+		case *types.Slice:
+			if eb, ok := d.Elem().Underlying().(*types.Basic); ok && eb.Kind() == types.Uint8 {
+				return append([]value(nil), x.bs...)
+			}
+		}
+		panic(unsupported{"conversion of a symbolic string to " + t_dst.String()})
 	}
 	return conv(t_dst, t_src, x)
 }
